@@ -1160,3 +1160,34 @@ package analysis
 //@   loop 5: invariant forall k in dom(s.allSchemas) :: old(k in dom(s.allSchemas)) || schAt(k, *schema, prefix, name)
 //@   loop 6: invariant forall k in dom(s.allSchemas) :: old(k in dom(s.allSchemas)) || schAt(k, *schema, prefix, name)
 //@   loop 7: invariant forall k in dom(s.allSchemas) :: old(k in dom(s.allSchemas)) || schAt(k, *schema, prefix, name)
+
+// ---------------------------------------------------------------- analyzer.go: the operations index (C14)
+
+// opsWF: the per-method operation maps exist and are distinct objects
+//@ fun opsWF(s *Spec) bool = s.operations != nil && (forall M in dom(s.operations) :: s.operations[M] != nil) && (forall M1 in dom(s.operations) :: forall M2 in dom(s.operations) :: M1 != M2 ==> s.operations[M1] != s.operations[M2])
+//@ fun inOpsIdx(s *Spec, M string, p string) bool = M in dom(s.operations) && p in dom(s.operations[M])
+
+//@ func (s *Spec) analyzeOperation(method, path, op)
+//@   aspect ops
+//@   requires s != nil && idxMaps(s) && opsWF(s)
+//@   modifies map s.operations, heap map[string]*spec.Operation, map s.consumes, map s.produces, map s.authSchemes, map s.allSchemas, map s.allOfs, map s.references.schemas, map s.references.responses, map s.references.parameters, map s.references.items, map s.references.headerItems, map s.references.parameterItems, map s.references.allRefs, map s.references.pathItems, map s.patterns.parameters, map s.patterns.headers, map s.patterns.items, map s.patterns.schemas, map s.patterns.allPatterns, map s.enums.parameters, map s.enums.headers, map s.enums.items, map s.enums.schemas, map s.enums.allEnums
+//@   ensures opsWF(s)
+//@   ensures op != nil ==> inOpsIdx(s, method, path) && s.operations[method][path] == op
+//@   ensures forall M string :: forall p string :: inOpsIdx(s, M, p) ==> (old(inOpsIdx(s, M, p)) && s.operations[M][p] == old(s.operations[M][p])) || (M == method && p == path && op != nil && s.operations[M][p] == op)
+//@   ensures forall M string :: forall p string :: old(inOpsIdx(s, M, p)) ==> inOpsIdx(s, M, p)
+//@   ensures op != nil ==> (forall i in 0..len(op.Consumes) :: op.Consumes[i] in dom(s.consumes)) && (forall i in 0..len(op.Produces) :: op.Produces[i] in dom(s.produces))
+//@   ensures forall c string :: old(c in dom(s.consumes)) ==> c in dom(s.consumes)
+//@   ensures forall c string :: old(c in dom(s.produces)) ==> c in dom(s.produces)
+//@   ensures forall c string :: old(c in dom(s.authSchemes)) ==> c in dom(s.authSchemes)
+//@   ensures forall c in dom(s.consumes) :: old(c in dom(s.consumes)) || (op != nil && inStrs(op.Consumes, c))
+//@   ensures forall c in dom(s.produces) :: old(c in dom(s.produces)) || (op != nil && inStrs(op.Produces, c))
+//@   loop 1: modifies map s.consumes
+//@   loop 1: invariant (forall i in 0..idx :: op.Consumes[i] in dom(s.consumes)) && (forall c string :: old(c in dom(s.consumes)) ==> c in dom(s.consumes)) && (forall c in dom(s.consumes) :: old(c in dom(s.consumes)) || inStrs(op.Consumes, c))
+//@   loop 2: modifies map s.produces
+//@   loop 2: invariant (forall i in 0..idx :: op.Produces[i] in dom(s.produces)) && (forall c string :: old(c in dom(s.produces)) ==> c in dom(s.produces)) && (forall c in dom(s.produces) :: old(c in dom(s.produces)) || inStrs(op.Produces, c))
+//@   loop 3: modifies map s.authSchemes
+//@   loop 3: invariant forall c string :: old(c in dom(s.authSchemes)) ==> c in dom(s.authSchemes)
+//@   loop 4: modifies map s.authSchemes
+//@   loop 4: invariant forall c string :: old(c in dom(s.authSchemes)) ==> c in dom(s.authSchemes)
+//@   loop 5: modifies heap spec.Parameter, map s.allSchemas, map s.allOfs, map s.references.schemas, map s.references.responses, map s.references.parameters, map s.references.items, map s.references.headerItems, map s.references.parameterItems, map s.references.allRefs, map s.patterns.parameters, map s.patterns.headers, map s.patterns.items, map s.patterns.schemas, map s.patterns.allPatterns, map s.enums.parameters, map s.enums.headers, map s.enums.items, map s.enums.schemas, map s.enums.allEnums
+//@   loop 6: modifies heap spec.Response, map s.allSchemas, map s.allOfs, map s.references.schemas, map s.references.responses, map s.references.parameters, map s.references.items, map s.references.headerItems, map s.references.parameterItems, map s.references.allRefs, map s.patterns.parameters, map s.patterns.headers, map s.patterns.items, map s.patterns.schemas, map s.patterns.allPatterns, map s.enums.parameters, map s.enums.headers, map s.enums.items, map s.enums.schemas, map s.enums.allEnums
